@@ -72,6 +72,7 @@ def kindStr : Kind → String
   | .refreshJoin => "refresh_join" | .refreshFailed => "refresh_failed"
   | .compactJoin => "compact_join" | .compactFailed => "compact_failed"
   | .searchJoin => "search_join" | .searchFailed => "search_failed"
+  | .notFound => "not_found" | .methodNotAllowed => "method_not_allowed"
 
 /-- `{"op":"respond","route":{"kind":"hit","endpoint":"search"},"facts":{…}}` →
 `{"status":n,"shape":"error_json","kind":"search_join","well_formed":b}` -/
@@ -81,7 +82,8 @@ def handle (req : Json) : Except String Json := do
   | "respond" =>
     let r ← routeOf (← req.getObjVal? "route")
     let f ← factsOf (← req.getObjVal? "facts")
-    let x := respond r f
+    -- `"legacy": true` asks for the service before the 404/405 repair
+    let x := if getBoolD req "legacy" false then respondLegacy r f else respond r f
     return Json.mkObj [("status", x.status), ("shape", shapeStr x.shape), ("kind", kindStr x.kind),
       ("well_formed", wellFormed x)]
   | _ => throw s!"C24: unknown op {op}"
